@@ -673,7 +673,7 @@ impl ByteReader for SliceReader<'_> {
     }
 
     fn check_eor(&self, num_bytes: usize) -> Result<(), DeserializationError> {
-        if self.pos + num_bytes > self.source.len() {
+        if num_bytes > self.source.len().saturating_sub(self.pos) {
             return Err(DeserializationError::UnexpectedEOF);
         }
         Ok(())
